@@ -646,7 +646,7 @@ func runC13(c *Ctx) {
 }
 
 func (c *Ctx) stickyRule(scannerT *types.TypeName) {
-	refill := c.method("postscript", "scanner", "refill")
+	refill, _ := c.refillAnchor()
 	fname := c.fname(refill)
 	c.refillRules("", "IO-STICKY")
 	// the sticky field is written nowhere but in refill
